@@ -160,10 +160,20 @@ def _tx_case(repo, it, S, spec):
     n = 0
     pc = chrom_parent(it, GENOME, alphabet="NT_EXTENDED")
     pk = chunk_parent(it, GENOME, cs, ce, alphabet="NT_EXTENDED")
-    cls = "gene.transcript:TranscriptInterval" if kind == "tx" else "gene.feature:FeatureInterval"
-    mk = (lambda p: mk_transcript(it, exons, S[sn], parent_or_seq_chunk_parent=p)) if kind == "tx" else (
-        lambda p: mk_feature(it, exons, S[sn], parent_or_seq_chunk_parent=p))
-    desc = f"{'transcript' if kind == 'tx' else 'feature'} {list(exons)} {sn} chunk=[{cs},{ce})"
+    cls = "gene.transcript:TranscriptInterval" if kind.startswith(("tx", "ctx")) else "gene.feature:FeatureInterval"
+    if kind.startswith("ctx"):
+        # coding transcript: the CDS is the exon structure without the first and last base of the span
+        lo, hi = exons[0][0] + 1, exons[-1][1] - 1
+        cds = [(max(s, lo), min(e, hi)) for s, e in exons if max(s, lo) < min(e, hi)]
+        F = it.enum("CDSFrame")
+        fr = [F[{0: "ZERO", 1: "ONE", 2: "TWO"}[x]] for x in consistent_frames(cds, sn, int(kind[3:]))]
+        mk = lambda p: mk_transcript(it, exons, S[sn], cds=cds, frames=fr, parent_or_seq_chunk_parent=p)  # noqa: E731
+    elif kind == "tx":
+        mk = lambda p: mk_transcript(it, exons, S[sn], parent_or_seq_chunk_parent=p)  # noqa: E731
+    else:
+        mk = lambda p: mk_feature(it, exons, S[sn], parent_or_seq_chunk_parent=p)  # noqa: E731
+    desc = (f"{'transcript' if kind == 'tx' else 'feature' if kind == 'feat' else f'coding transcript (CDS {cds}, start frame {kind[3:]})'} "
+            f"{list(exons)} {sn} chunk=[{cs},{ce})")
     try:
         whole = mk(pc)
     except Raised as ex:
@@ -245,10 +255,12 @@ def rk_cds(ctx):
 def rk_intervals(ctx):
     specs = []
     lays = LAYOUTS if ctx.thorough else LAYOUTS[:4]
-    for kind in ("tx", "feat"):
+    for kind in ("tx", "feat", "ctx0", "ctx1"):
         for lay in lays:
             for sn in ("PLUS", "MINUS"):
-                for cs, ce in _windows(lay, ctx.thorough):
+                for j, (cs, ce) in enumerate(_windows(lay, ctx.thorough)):
+                    if kind.startswith("ctx") and not ctx.thorough and (j + int(kind[3:])) % 2:
+                        continue
                     specs.append((kind, lay, sn, cs, ce))
     ctx.r.floor("C07.RT", "transcript / feature twin cases", len(specs), 300)
     results = pmap(_runner(ctx.repo, _tx_case), specs)
